@@ -384,7 +384,7 @@ func handleExtraFieldList(p *SelectPlan, stmt *ast.SelectStmt) {
 
 	hasWildCard := false
 	for i := 0; i < p.originColumnCount; i++ {
-		if stmt.Fields.Fields[i].WildCard != nil {
+		if isWildCardField(stmt.Fields.Fields[i]) {
 			hasWildCard = true
 		}
 	}
@@ -743,6 +743,21 @@ func handleFieldList(p *SelectPlan, stmt *ast.SelectStmt) (err error) {
 	// 这里如果出错, 只能通过panic返回err
 	columnNameRewriter := NewColumnNameRewriteVisitor(p.TableAliasStmtInfo)
 	fields.Accept(columnNameRewriter)
+
+	// the visitor does not reach the wildcard fields `tbl.*` / `db.tbl.*`
+	for _, f := range fields.Fields {
+		if f.WildCard == nil {
+			continue
+		}
+		rule, need, isAlias, err := NeedCreateWildCardFieldDecorator(p.TableAliasStmtInfo, f.WildCard)
+		if err != nil {
+			return fmt.Errorf("check NeedCreateWildCardFieldDecorator error: %v", err)
+		}
+		if need {
+			f.Expr = CreateWildCardFieldDecorator(f.WildCard, rule, isAlias, p.GetRouteResult())
+			f.WildCard = nil
+		}
+	}
 
 	// 如果最外层是聚合函数, 则生成一个聚合函数装饰器, 并记录对应的列位置
 	// 只处理最外层的聚合函数.
